@@ -222,6 +222,16 @@ pub fn observe(h: &H) -> Obs {
                 if u.as_first().is_some() != first || u.as_second().is_some() == first {
                     o.notes.push("as_first/as_second disagree with borrow()".into());
                 }
+                // the borrow handed out by as_first / as_second is the one borrow() hands out (same bits: the value's address)
+                let via_borrow = match u.borrow() {
+                    ArcUnionBorrow::First(b) => b.get() as *const A as usize,
+                    ArcUnionBorrow::Second(b) => b.get() as *const B as usize,
+                };
+                let via_as = u.as_first().map(|b| unsafe { std::mem::transmute_copy::<_, usize>(&b) })
+                    .or_else(|| u.as_second().map(|b| unsafe { std::mem::transmute_copy::<_, usize>(&b) }));
+                if via_as != Some(via_borrow) {
+                    o.notes.push("as_first/as_second hand out a borrow whose bits are not the value's address".into());
+                }
                 if std::mem::size_of_val(u) != std::mem::size_of::<usize>() {
                     o.notes.push("ArcUnion is not one word".into());
                 }
